@@ -8,13 +8,21 @@ Open Scope N_scope.
 Definition field_text (s k : N) (m a : N) : text :=
   if (pick s k 2 =? 0) && (m / 2 <? a) then 45 :: dec_of_N (m - a) else dec_of_N a.
 
+(* a trailing remark; it may itself contain semicolons *)
+Definition lp_comment (s k : N) : text :=
+  59 :: match pick s k 3 with
+        | 0 => s2t " c"
+        | 1 => s2t " was: DJN.F $ -1, { 338 ; changed"
+        | _ => s2t "; section ;;"
+        end.
+
 Definition lp_line (s k : N) (legacy : bool) (m : N) (i : instr) : text :=
   optgap s k
   ++ recase s (k + 1) (opcode_name (i_op i))
   ++ (if legacy then [] else [46] ++ recase s (k + 2) (opmode_name (i_md i)))
   ++ gap s (k + 3) ++ [amode_char (i_am i)] ++ gap s (k + 4) ++ field_text s (k + 5) m (i_a i)
   ++ optgap s (k + 6) ++ [44] ++ gap s (k + 7) ++ [amode_char (i_bm i)] ++ gap s (k + 8) ++ field_text s (k + 9) m (i_b i)
-  ++ (match pick s (k + 10) 5 with 0 => gap s (k + 11) ++ s2t "; c" | _ => [] end).
+  ++ (match pick s (k + 10) 5 with 0 => gap s (k + 11) ++ lp_comment s (k + 12) | _ => [] end).
 
 (* line end: LF or CR-LF *)
 Definition eol (s k : N) : text := if pick s k 4 =? 0 then [13; 10] else [10].
@@ -63,7 +71,6 @@ Fixpoint split_lines (s : text) (cur : text) : list text :=
   | c :: r => split_lines r (cur ++ [c])
   end.
 
-Definition upper_c (c : N) : N := if is_lower_a c then c - 32 else c.
 Definition opcode_of_name (s : text) : option opcode :=
   find (fun o => text_eqb (opcode_name o) (map upper_c s)) all_opcodes.
 Definition opmode_of_name (s : text) : option opmode :=
